@@ -189,12 +189,14 @@ def run(ck):
                 break
     # faults in root / include / incbin
     f_cases = []
-    files0 = {"/w/main.asm": '@db 1 ; note é\n; a whole-line comment\n@include "i.inc"\n@incbin "b.bin"\n@db "é" ;tail',
+    files0 = {"/w/main.asm": '@db 1 ; note é\n; a whole-line comment\n@meta "k" "v", "kk" "vé"\nlabm:\n@endmeta\n@include "i.inc"\n@incbin "b.bin"\n@db "é" ;tail',
               "/w/i.inc": '; header comment €\n@db 2, "€"\n', "/w/b.bin": bytes(range(7, 16))}
     for path, content in files0.items():
         n = len(content.encode() if isinstance(content, str) else content)
         for k in range(0, n + 1):
             f_cases.append((path, k, asm_case("z80", files=files0, opts="fault=%s:%d;chunks=%d,%d" % (path, k, rng.randrange(1, 5), rng.randrange(1, 5)))))
+            f_cases.append((path, k, asm_case("z80", files=files0, opts="fault=%s:%d" % (path, k))))          # reads as large as asked for
+            f_cases.append((path, k, asm_case("z80", files=files0, opts="fault=%s:%d;chunks=4" % (path, k))))
     f_impl = run_cases(harness, [c for _, _, c in f_cases])
     ck.evaluations += len(f_cases)
     ok0 = AsmResult(run_cases(harness, [asm_case("z80", files=files0)], shards=1)[0])
@@ -234,6 +236,27 @@ def run(ck):
                          "" if not ar.ok else ", the fault-free output is %s" % ok0.canon()),
                          {"mode": "asm", "harness_case": c, "expected": "DIAG" + (" or " + ok0.canon() if once else "")})
             break
+    # the real file system: a file that is opened again while it is still being read (it includes its own bytes; a guarded
+    # include cycle) is read from its start both times
+    import subprocess, tempfile, shutil
+    az = build_az65_bin()
+    d = tempfile.mkdtemp(prefix="az65_c17_")
+    try:
+        selfsrc = b'@db 1\n@incbin "self.asm"\n@db 2\n@db 3, 4, 5\n'
+        open(os.path.join(d, "self.asm"), "wb").write(selfsrc)
+        open(os.path.join(d, "a.asm"), "wb").write(b'@db $a1\n@if ! @isdef seen\n@defn seen, 1\n@include "b.asm"\n@endif\n@db $a2\n@db "tail of a"\n')
+        open(os.path.join(d, "b.asm"), "wb").write(b'@db $b1\n@include "a.asm"\n@db $b2\n')
+        for name, want in (("self.asm", b"\x01" + selfsrc + b"\x02\x03\x04\x05"),
+                           ("a.asm", b"\xa1\xb1\xa1\xa2tail of a\xb2\xa2tail of a")):
+            p = subprocess.run([az, "z80", name], cwd=d, stdout=subprocess.PIPE, stderr=subprocess.PIPE, timeout=60)
+            ck.evaluations += 1
+            ck.nontriv("reopen:" + name)
+            if p.returncode != 0 or p.stdout != want:
+                ck.violation("`az65 z80 %s` (the file is opened again while it is being read): exit %s, stdout %s, expected %s; stderr %r" % (
+                    name, p.returncode, p.stdout.hex(), want.hex(), p.stderr.decode("utf8", "replace")[:120]),
+                    {"mode": "cli", "argv": ["az65", "z80", name], "expected": "OK " + want.hex()})
+    finally:
+        shutil.rmtree(d, ignore_errors=True)
     # a byte that is not UTF-8 (Latin-1 e-acute, a lone continuation byte, a truncated lead) at every offset of the
     # source files -- in code, strings and comments alike -- must fail the run
     b_cases = []
